@@ -1,5 +1,6 @@
 import H4.Driver.Util
 import H4.Driver.Rle
+import H4.Driver.Slab
 open H4.Driver
 
 /-- state of every stateful engine; reset at each `CASE` line -/
@@ -9,6 +10,7 @@ structure World where
 def stepWorld (w : World) (engine : String) (args : List String) : World × String :=
   match engine with
   | "rle" => (w, stepRle args)
+  | "sd" => (w, stepSd args)
   | _ => (w, "bad-engine")
 
 structure RunSt where
